@@ -207,7 +207,8 @@ FAMILIES = [
            bounds='1 producer x 2 puts, 2 consumers'),
     Family('p2c1', fam_queue,
            quick=dict(np_=2, nc=1, fault_kinds=[Fault.NONE], close_modes=1),
-           thorough=dict(np_=2, nc=1, fault_kinds=ALLF, pmax=2),
+           thorough=dict(np_=2, nc=1, fault_kinds=[Fault.NONE, Fault.CANCEL, Fault.CLOSE], pmax=2,
+                         placements=False, _max_paths=900000, _max_wall=1200),
            reach=['none'],
            bounds='2 producers x 2 puts, 1 consumer'),
     Family('p1c2_real', fam_queue,
